@@ -37,9 +37,10 @@ type Action struct {
 }
 
 type Trigger struct {
-	Call int    `json:"call"` // at the n-th resolver call of the whole history
-	Typ  string `json:"typ"`
-	Eid  int64  `json:"eid"`
+	Call   int    `json:"call"` // at the n-th resolver call of the whole history
+	Typ    string `json:"typ"`  // entity written from inside the resolver ("" = none)
+	Eid    int64  `json:"eid"`
+	SlowUs int    `json:"slow_us,omitempty"` // the resolver takes this long: client frames arrive while the run is in flight
 }
 
 type Case struct {
@@ -52,6 +53,30 @@ type Case struct {
 	Actions  []Action       `json:"actions"`
 	Triggers []Trigger      `json:"triggers,omitempty"`
 	Lifecycle bool          `json:"lifecycle"` // C17 mode: collisions, failures, malformed frames, close
+	HoldUs    int           `json:"hold_us,omitempty"` // the execution logger's Error takes this long: a failed run stays in flight
+	CloserDelayUs int       `json:"closer_delay_us,omitempty"` // every closeSubscription call is delayed at its entry (hook H6)
+}
+
+// closerDelay (nanoseconds) is read by the hook installed once in init: goroutines of an
+// earlier run may still pass the yield point when the next run starts.
+var closerDelay int64
+var closerCalls int64
+
+// SetCloserDelay makes every conn.closeSubscription call wait at its entry (hook H6).
+func SetCloserDelay(d time.Duration) { atomic.StoreInt64(&closerDelay, int64(d)) }
+
+// CloserCalls counts the closeSubscription calls seen by the hook.
+func CloserCalls() int64 { return atomic.LoadInt64(&closerCalls) }
+
+func init() {
+	graphql.VerifYield = func(site string) {
+		if site == "closeSubscription.enter" {
+			atomic.AddInt64(&closerCalls, 1)
+			if d := atomic.LoadInt64(&closerDelay); d > 0 {
+				time.Sleep(time.Duration(d))
+			}
+		}
+	}
 }
 
 type ownerKey struct{}
@@ -74,6 +99,7 @@ type Store struct {
 	failNext int
 	gen      map[string]int
 	WriteDuringRun int32
+	SlowCalls      int32
 }
 
 func key(typ string, id int64) string { return fmt.Sprintf("%s:%d", typ, id) }
@@ -139,8 +165,14 @@ func (st *Store) onCall(ctx context.Context, typ string, id int64, f *world.Fiel
 	st.mu.Unlock()
 	reactive.AddDependency(ctx, w.res, nil)
 	for _, t := range fire {
-		atomic.AddInt32(&st.WriteDuringRun, 1)
-		st.Write(t.Typ, t.Eid)
+		if t.SlowUs > 0 {
+			atomic.AddInt32(&st.SlowCalls, 1)
+			time.Sleep(time.Duration(t.SlowUs) * time.Microsecond)
+		}
+		if t.Typ != "" {
+			atomic.AddInt32(&st.WriteDuringRun, 1)
+			st.Write(t.Typ, t.Eid)
+		}
 	}
 }
 
@@ -179,6 +211,56 @@ func (l *subLogger) snapshot() []string {
 	return append([]string{}, l.events...)
 }
 
+func (l *subLogger) mark(ev string) {
+	l.mu.Lock()
+	l.events = append(l.events, ev)
+	l.mu.Unlock()
+}
+
+// execLogger is the connection's GraphqlLogger. Its Error is slow on request, which keeps a
+// failed run in flight (the server has already spawned the closer of the failed subscription)
+// while the next client frame - unsubscribe of the same id, a new subscribe, socket close -
+// is handled.
+type execLogger struct{ hold time.Duration }
+
+func (execLogger) StartExecution(ctx context.Context, tags map[string]string, initial bool)      {}
+func (execLogger) FinishExecution(ctx context.Context, tags map[string]string, d time.Duration) {}
+func (l execLogger) Error(ctx context.Context, err error, tags map[string]string) {
+	if l.hold > 0 {
+		time.Sleep(l.hold)
+	}
+}
+
+// checkLogger: every Subscribe is matched by exactly one Unsubscribe. A mutation is tracked
+// by the server under its id while it runs and logs an Unsubscribe of its own when it is
+// done ("M:" marks are written by the harness when it sends a mutate frame); any other
+// Unsubscribe for an id that is not subscribed is one too many.
+func checkLogger(evs []string) error {
+	open := map[string]bool{}
+	credit := map[string]int{}
+	for i, e := range evs {
+		id := e[2:]
+		switch e[0] {
+		case 'S':
+			if open[id] {
+				return fmt.Errorf("Subscribe for %q logged while it is already subscribed: %v", id, evs)
+			}
+			open[id] = true
+		case 'M':
+			credit[id]++
+		case 'U':
+			if open[id] {
+				open[id] = false
+			} else if credit[id] > 0 {
+				credit[id]--
+			} else {
+				return fmt.Errorf("Unsubscribe for %q logged although it is not subscribed (event %d; a subscription ended twice): %v", id, i, evs)
+			}
+		}
+	}
+	return nil
+}
+
 // openIDs returns the ids with a Subscribe not yet matched by an Unsubscribe, and the
 // maximum number of simultaneously open subscriptions over the event sequence.
 func openIDs(evs []string) (map[string]bool, int) {
@@ -191,7 +273,7 @@ func openIDs(evs []string) (map[string]bool, int) {
 			if len(open) > max {
 				max = len(open)
 			}
-		} else {
+		} else if e[0] == 'U' {
 			delete(open, id)
 		}
 	}
@@ -226,6 +308,7 @@ func dump(outs []fakesock.Out) string {
 // Run executes the case.
 func Run(c Case) (res Result, sig string, err error) {
 	reactive.WriteThenReadDelay = 0
+	SetCloserDelay(time.Duration(c.CloserDelayUs) * time.Microsecond)
 	st := newStore()
 	st.triggers = c.Triggers
 	spec := *c.Spec
@@ -242,7 +325,7 @@ func Run(c Case) (res Result, sig string, err error) {
 	ctx, cancel := context.WithCancel(context.Background())
 	defer cancel()
 	conn := graphql.CreateConnection(ctx, sock, b.Schema, graphql.WithMinRerunInterval(0), graphql.WithSubscriptionLogger(lg),
-		graphql.WithMaxSubscriptions(c.MaxSubs), graphql.WithExecutor(graphql.NewExecutor(sched.New(c.Sched, 11))))
+		graphql.WithMaxSubscriptions(c.MaxSubs), graphql.WithExecutionLogger(execLogger{hold: time.Duration(c.HoldUs) * time.Microsecond}), graphql.WithExecutor(graphql.NewExecutor(sched.New(c.Sched, 11))))
 	conn.Use(func(in *graphql.ComputationInput, next graphql.MiddlewareNextFunc) *graphql.ComputationOutput {
 		st.mu.Lock()
 		g := st.gen[in.Id]
@@ -443,6 +526,7 @@ func Run(c Case) (res Result, sig string, err error) {
 				feats["mutate-collides"] = true
 			}
 			allowedThisSeg["error:"+id] = true
+			lg.mark("M:" + id)
 			sock.SendEnvelope(id, "mutate", map[string]interface{}{"query": fmt.Sprintf(`mutation { bump(typ: %q, id: %d) }`, a.Typ, a.Eid), "variables": map[string]interface{}{}})
 			if !barrier() {
 				return res, "no-echo", fmt.Errorf("no echo reply after mutate")
@@ -474,6 +558,16 @@ func Run(c Case) (res Result, sig string, err error) {
 			feats["failures"] = true
 		case "malformed-message":
 			allowedThisSeg["error:"+a.ID] = true
+			if a.Typ == "unsubscribe" {
+				// the payload of an unsubscribe frame is not looked at: this is an unsubscribe
+				if ls, ok := live[a.ID]; ok {
+					delete(live, a.ID)
+					allowedThisSeg[a.ID] = true
+					st.mu.Lock()
+					ended[ls.owner] = -1
+					st.mu.Unlock()
+				}
+			}
 			sock.Send([]byte(fmt.Sprintf(`{"id":%q,"type":%q,"message":%s}`, a.ID, a.Typ, a.Raw)))
 			if !barrier() {
 				return res, "no-echo", fmt.Errorf("connection stopped answering after a malformed %s message %s", a.Typ, a.Raw)
@@ -501,13 +595,20 @@ func Run(c Case) (res Result, sig string, err error) {
 		}
 		if c.Lifecycle {
 			evs := lg.snapshot()
+			if err := checkLogger(evs); err != nil {
+				return res, "logger-sequence", err
+			}
 			open, maxOpen := openIDs(evs)
 			if maxOpen > c.MaxSubs {
 				return res, "max-subs", fmt.Errorf("%d subscriptions were live at once (max %d): %v", maxOpen, c.MaxSubs, evs)
 			}
 			for id := range live {
 				if !open[id] {
-					// ended by its own failure (observed through the logger)
+					// ended by its own failure (observed through the logger): only possible
+					// once a failure has been injected
+					if !feats["failures"] && !closed {
+						return res, "spontaneous-end", fmt.Errorf("subscription %q ended (Unsubscribe logged) although it was not unsubscribed, no resolver failed and the connection is open: %v", id, evs)
+					}
 					delete(live, id)
 					delete(uncertain, id)
 					delete(client.State, id)
@@ -598,16 +699,18 @@ func Run(c Case) (res Result, sig string, err error) {
 			return res, "writes-after-close", fmt.Errorf("envelopes are still written after the connection closed")
 		}
 		evs := lg.snapshot()
+		if err := checkLogger(evs); err != nil {
+			return res, "logger-sequence", err
+		}
 		open := map[string]int{}
 		for _, e := range evs {
-			id := e[2:]
-			if e[0] == 'S' {
-				if open[id] > 0 {
-					return res, "logger-sequence", fmt.Errorf("Subscribe for %q logged while it is already subscribed: %v", id, evs)
+			switch e[0] {
+			case 'S':
+				open[e[2:]]++
+			case 'U':
+				if open[e[2:]] > 0 {
+					open[e[2:]]--
 				}
-				open[id]++
-			} else if open[id] > 0 {
-				open[id]--
 			}
 		}
 		for id, n := range open {
@@ -639,6 +742,9 @@ func Run(c Case) (res Result, sig string, err error) {
 	}
 	if atomic.LoadInt32(&st.WriteDuringRun) > 0 {
 		feats["write-during-recompute"] = true
+	}
+	if atomic.LoadInt32(&st.SlowCalls) > 0 {
+		feats["slow-resolver"] = true
 	}
 	for k, v := range feats {
 		if v {
@@ -694,6 +800,7 @@ func Gen(t *rapid.T, lifecycle bool) Case {
 	if lifecycle {
 		c.MaxSubs = rapid.IntRange(1, 3).Draw(t, "maxsubs")
 		ids = []string{"a", "b", "c"}
+		c.HoldUs = rapid.SampledFrom([]int{0, 0, 300, 3000}).Draw(t, "holdus")
 	}
 	ent := func() (string, int64) {
 		typ := rapid.SampledFrom(entTypes).Draw(t, "etyp")
@@ -716,6 +823,11 @@ func Gen(t *rapid.T, lifecycle bool) Case {
 		case "subscribe", "unsubscribe":
 			a.ID = rapid.SampledFrom(ids).Draw(t, "id")
 			a.Q = rapid.IntRange(0, nq-1).Draw(t, "q")
+			if a.Kind == "unsubscribe" && rapid.Bool().Draw(t, "resub") {
+				// unsubscribe directly followed by a new subscription with the same id
+				c.Actions = append(c.Actions, a)
+				a = Action{Kind: "subscribe", ID: a.ID, Q: rapid.IntRange(0, nq-1).Draw(t, "q")}
+			}
 		case "write":
 			a.Typ, a.Eid = ent()
 		case "mutate":
@@ -729,6 +841,16 @@ func Gen(t *rapid.T, lifecycle bool) Case {
 			a.Us = rapid.SampledFrom([]int{0, 100, 500, 2000}).Draw(t, "us")
 		case "failnext":
 			a.N = rapid.IntRange(1, 3).Draw(t, "n")
+			if rapid.Bool().Draw(t, "failfollow") {
+				// a subscription that fails at once, and the client reacting to the same id (or
+				// going away) while the failed run may still be in flight
+				id := rapid.SampledFrom(ids).Draw(t, "id")
+				c.Actions = append(c.Actions, a, Action{Kind: "subscribe", ID: id, Q: rapid.IntRange(0, nq-1).Draw(t, "q")})
+				a = Action{Kind: rapid.SampledFrom([]string{"unsubscribe", "unsubscribe", "subscribe", "close", "mutate"}).Draw(t, "follow"), ID: id, Q: rapid.IntRange(0, nq-1).Draw(t, "q")}
+				if a.Kind == "mutate" {
+					a.Typ, a.Eid = ent()
+				}
+			}
 		case "malformed-message":
 			a.ID = rapid.SampledFrom(ids).Draw(t, "id")
 			a.Typ = rapid.SampledFrom([]string{"subscribe", "mutate", "url", "unsubscribe"}).Draw(t, "mtyp")
@@ -745,7 +867,17 @@ func Gen(t *rapid.T, lifecycle bool) Case {
 	}
 	for i := 0; i < rapid.IntRange(0, 4).Draw(t, "ntriggers"); i++ {
 		typ, id := ent()
-		c.Triggers = append(c.Triggers, Trigger{Call: rapid.IntRange(1, 200).Draw(t, "call"), Typ: typ, Eid: id})
+		tr := Trigger{Call: rapid.IntRange(1, 200).Draw(t, "call"), Typ: typ, Eid: id}
+		if rapid.IntRange(0, 2).Draw(t, "slow") == 0 {
+			// a slow resolver call early in the history: the next frames meet a run in flight
+			tr.Call = rapid.IntRange(1, 12).Draw(t, "slowcall")
+			tr.SlowUs = rapid.SampledFrom([]int{500, 2000}).Draw(t, "slowus")
+			if rapid.Bool().Draw(t, "slowonly") {
+				tr.Typ = ""
+			}
+		}
+		c.Triggers = append(c.Triggers, tr)
 	}
+	c.CloserDelayUs = rapid.SampledFrom([]int{0, 0, 0, 200, 1500}).Draw(t, "closerdelay")
 	return c
 }
